@@ -533,10 +533,10 @@ func main() {
 		Rule: "scripts: one real Router (TCP / in-memory) with harness-owned peers; 0-3 established connections and deliveries, " +
 			"then 1-3 Stop calls (possibly held at router.closedSet) interleaved with first-contact sends held at router.connected, " +
 			"inbound connections held at router.identityReceived or silent, deliveries blocked inside the processor, peer closes, sends to " +
-			"dead peers, and the releases in random order; races: the same operations started together without holds; servers: LocalTest " +
+			"dead peers, and the releases in random order; multi: 2-3 simultaneous connections to ONE peer (simultaneous open, second dial while the first Send is held at router.connected / router.registered, retried Send) of which some end before Stop; races: the same operations started together without holds; servers: LocalTest " +
 			"clusters (3-4 servers, both transports) with 1-3 running instances rooted on the closed server and messages in flight, " +
 			"Server.Close called 1-3 times (sequentially or concurrently), racing with sends from its instances, protocol starts after " +
-			"the close and the tree store's removal timer held at treestorage.timerFired; non-trivial = at least one connection / " +
+			"the close and the tree store's removal timer held at treestorage.timerFired; closerace: 2-4 Close() calls released together on one server; non-trivial = at least one connection / " +
 			"instance existed; distinct = distinct script",
 		Shard:    12,
 		Generate: generate,
